@@ -28,6 +28,8 @@
 //! after failed or rejected writes. A file whose append/flush/finish failed is only dropped afterwards
 //! (its IPC writer state is undefined). Not demanded: that a rejected write really did not fit.
 //!
+//! Every history is completed by `Finish` on each file still in progress and `Read` of every readable file.
+//!
 //! Non-trivial = a read-back of ≥ 2 non-empty batches, or of a view/dictionary/nested column, or a
 //! failed/rejected write followed by the release of that file.
 //!
@@ -366,16 +368,38 @@ impl C21 {
                 }
             }};
         }
+        // the file choice addresses the slots an op can act on: 0 = in progress, 1 = readable, 2 = not yet dropped
         macro_rules! slot_index {
-            ($file:expr) => {{
-                if slots.is_empty() {
+            ($file:expr, $kind:expr) => {{
+                let cands: Vec<usize> = slots
+                    .iter()
+                    .enumerate()
+                    .filter(|(_, s)| {
+                        let s: &Slot<_> = s;
+                        match $kind {
+                            0 => matches!(s.st, St::InProgress(_)),
+                            1 => matches!(s.st, St::Finished(_)) || (matches!(s.st, St::InProgress(_)) && s.flushed && s.written.iter().any(|b| b.num_rows() > 0)),
+                            _ => !matches!(s.st, St::Dropped),
+                        }
+                    })
+                    .map(|(i, _)| i)
+                    .collect();
+                if cands.is_empty() {
                     continue;
                 }
-                pick_index(($file as u16) << 8, slots.len())
+                cands[pick_index(($file as u16) << 8, cands.len())]
             }};
         }
 
-        for (step, op) in case.ops.iter().enumerate() {
+        // every history ends by finishing whatever is still in progress and reading every readable file back
+        let mut ops = case.ops.clone();
+        for _ in 0..6 {
+            ops.push(Op::Finish { file: 0 });
+        }
+        for f in [0u8, 43, 86, 128, 171, 214] {
+            ops.push(Op::Read { file: f });
+        }
+        for (step, op) in ops.iter().enumerate() {
             let mut wrote_ok = false;
             match op {
                 Op::Create => {
@@ -389,7 +413,7 @@ impl C21 {
                     labels.push("op=create".into());
                 }
                 Op::Append { file, batch } => {
-                    let i = slot_index!(*file);
+                    let i = slot_index!(*file, 0);
                     let b = match self.make_batch(&schema, &case.cols, batch) {
                         Ok(b) => b,
                         Err(e) => return CaseResult::discard(format!("harness: cannot build batch: {e}")),
@@ -416,7 +440,7 @@ impl C21 {
                     }
                 }
                 Op::Flush { file } => {
-                    let i = slot_index!(*file);
+                    let i = slot_index!(*file, 0);
                     let slot: &mut Slot<_> = &mut slots[i];
                     let St::InProgress(f) = &mut slot.st else { continue };
                     match f.flush() {
@@ -434,7 +458,7 @@ impl C21 {
                     }
                 }
                 Op::Finish { file } => {
-                    let i = slot_index!(*file);
+                    let i = slot_index!(*file, 0);
                     let slot: &mut Slot<_> = &mut slots[i];
                     let St::InProgress(f) = &mut slot.st else { continue };
                     match f.finish() {
@@ -496,7 +520,7 @@ impl C21 {
                     }
                 }
                 Op::Read { file } => {
-                    let i = slot_index!(*file);
+                    let i = slot_index!(*file, 1);
                     let slot: &Slot<_> = &slots[i];
                     let (sf, in_progress): (Arc<dyn SpillFile>, bool) = match &slot.st {
                         St::Finished(f) => (Arc::clone(f), false),
@@ -568,7 +592,7 @@ impl C21 {
                     }
                 }
                 Op::Drop { file } => {
-                    let i = slot_index!(*file);
+                    let i = slot_index!(*file, 2);
                     let slot: &mut Slot<_> = &mut slots[i];
                     let old = std::mem::replace(&mut slot.st, St::Dropped);
                     match old {
@@ -678,7 +702,7 @@ impl Property for C21 {
             1u8..4,
             any::<bool>(),
             prop::bool::weighted(0.2),
-            prop_oneof![3 => Just(None), 2 => (200u64..6000).prop_map(Some), 1 => (6000u64..60_000).prop_map(Some)],
+            prop_oneof![4 => Just(None), 1 => (200u64..6000).prop_map(Some), 1 => (6000u64..60_000).prop_map(Some)],
             prop_oneof![5 => Just(None), 1 => (100u64..4000).prop_map(Some), 1 => (4000u64..40_000).prop_map(Some)],
         );
         head.prop_flat_map(move |(cols, codec, read_buf, buffered, mt, quota, fsize)| {
@@ -721,6 +745,9 @@ impl Property for C21 {
     fn known_signature(&self, case: &Case) -> Option<String> {
         // every real OS write failure leaks the bytes of the failed write (see header); the whole
         // OS-fault sub-family is excluded while the finding is open
+        if std::env::var("VERIF_IGNORE_KNOWN").map(|v| v.split(',').any(|x| x == "C21")).unwrap_or(false) {
+            return None; // used with mutrun to check a candidate repair against the whole fault family
+        }
         case.fsize.map(|_| "os-write-error".to_string())
     }
     fn run(&self, case: &Case) -> CaseResult {
